@@ -273,7 +273,7 @@ impl<'a> Run<'a> {
     /// Wait until nothing can move by itself. false = stall (no quiescence within the limit).
     fn settle(&mut self, limit: Duration) -> bool {
         let p = probe::get();
-        let start = Instant::now();
+        let mut start = Instant::now();
         loop {
             self.drain_a();
             let evs = p.take_from(self.tr.next_ev, Duration::from_millis(0));
@@ -281,6 +281,10 @@ impl<'a> Run<'a> {
                 self.tr.feed(e);
             }
             self.tr.next_ev += evs.len();
+            if !evs.is_empty() {
+                // the limit is on the absence of any progress, not on the length of the settle
+                start = Instant::now();
+            }
             // a held phase always ends: once its actor has handled the termination message, let it go
             let late: Vec<String> =
                 self.tr.actors.iter().filter(|(_, a)| a.gate.is_some() && a.term_seen).map(|(t, _)| t.clone()).collect();
